@@ -26,15 +26,29 @@ import (
 
 const sigC40Boundary = "C40/sample-lost-at-output-chunk-boundary"
 
+// sigC40CounterLead: counter chunks as the downsampler really writes them begin with the first raw
+// value of their batch at its raw timestamp (before the first window timestamp). The five aggregates
+// are deduplicated independently, and the extra leading sample gives the counter iterator another
+// penalty history than the count iterator: the merged counter aggregate then lacks timestamps the
+// merged count aggregate has. pkg/dedup's pinned TestDedupChunkSeriesMergerDownsampledChunks ("two
+// overlapping series") expects exactly such an output, so this is recorded, not repaired.
+const sigC40CounterLead = "C40/counter-with-leading-raw-sample-misaligned"
+
 type aggSeries struct {
 	ts   []int64
 	cuts []int // chunk sizes
 	mask [5]bool
+	// lead >= 0: every counter chunk begins with the first raw value of its batch at lead ms before
+	// the chunk's first window timestamp (what downsampleFloatBatch writes); -1: no such sample
+	lead int64
 }
 
-func xorChunk(ts []int64, val func(i int) float64, dupLast bool) chunkenc.Chunk {
+func xorChunk(ts []int64, val func(i int) float64, dupLast bool, lead ...int64) chunkenc.Chunk {
 	c := chunkenc.NewXORChunk()
 	app, _ := c.Appender()
+	if len(lead) > 0 && lead[0] >= 0 && len(ts) > 0 {
+		app.Append(ts[0]-lead[0], val(0)-1)
+	}
 	for i, t := range ts {
 		app.Append(t, val(i))
 	}
@@ -65,7 +79,7 @@ func (a aggSeries) metas(seriesIdx int) []chunks.Meta {
 				default:
 					return float64(100*at + (base+i)%17 + seriesIdx)
 				}
-			}, downsample.AggrType(at) == downsample.AggrCounter)
+			}, downsample.AggrType(at) == downsample.AggrCounter, map[bool]int64{true: a.lead, false: -1}[downsample.AggrType(at) == downsample.AggrCounter])
 		}
 		out = append(out, chunks.Meta{MinTime: ts[0], MaxTime: ts[len(ts)-1], Chunk: downsample.EncodeAggrChunk(chks)})
 		off += n
@@ -77,12 +91,15 @@ func (a aggSeries) String() string {
 	if len(a.ts) == 0 {
 		return "[]"
 	}
-	return fmt.Sprintf("[n=%d t0=%d tN=%d cuts=%v mask=%v]", len(a.ts), a.ts[0], a.ts[len(a.ts)-1], a.cuts, a.mask)
+	return fmt.Sprintf("[n=%d t0=%d tN=%d cuts=%v mask=%v lead=%d]", len(a.ts), a.ts[0], a.ts[len(a.ts)-1], a.cuts, a.mask, a.lead)
 }
 
 func genAggSeries(rt *rapid.T, label string, res int64, base int64, mask [5]bool, maxN int) aggSeries {
 	n := rapid.IntRange(1, maxN).Draw(rt, label+"n")
-	a := aggSeries{mask: mask}
+	a := aggSeries{mask: mask, lead: -1}
+	if rapid.Bool().Draw(rt, label+"leadingRaw") {
+		a.lead = rapid.SampledFrom([]int64{0, 1, res / 2, res - 1, res / 5}).Draw(rt, label+"lead")
+	}
 	t := base
 	for i := 0; i < n; i++ {
 		a.ts = append(a.ts, t)
@@ -115,6 +132,10 @@ func tsOf(c chunkenc.Chunk) []int64 {
 	}
 	return out
 }
+
+// waiveCounter: timestamps missing from the counter aggregate only are counted (counterMiss), not reported.
+var c40WaiveCounter bool
+var c40CounterMiss int
 
 func checkC40(series []aggSeries) (msg string, outChunks int, outSamples int) {
 	var cs []storage.ChunkSeries
@@ -164,6 +185,10 @@ func checkC40(series []aggSeries) (msg string, outChunks int, outSamples int) {
 					missing = append(missing, t)
 				}
 			}
+			if len(missing) > 0 && at == downsample.AggrCounter && c40WaiveCounter {
+				c40CounterMiss++
+				continue
+			}
 			if len(missing) > 0 {
 				return fmt.Sprintf("output chunk %d [%d,%d]: aggregate %v misses %d of %d count timestamps, first %d", outChunks-1, m.MinTime, m.MaxTime, at, len(missing), len(cts), missing[0]), outChunks, outSamples
 			}
@@ -177,7 +202,7 @@ func checkC40(series []aggSeries) (msg string, outChunks int, outSamples int) {
 
 func c40Regress() string {
 	mk := func(base int64, n int) aggSeries {
-		a := aggSeries{mask: [5]bool{true, true, true, true, true}}
+		a := aggSeries{mask: [5]bool{true, true, true, true, true}, lead: -1}
 		for i := 0; i < n; i++ {
 			a.ts = append(a.ts, base+int64(i)*300000)
 		}
@@ -196,9 +221,28 @@ func c40Regress() string {
 	return msg
 }
 
+// c40RegressLead is the minimal input of sigC40CounterLead: one replica with a single window at
+// 450000, the other with windows at 300000 and 900000 whose counter chunk begins with the first raw
+// value at 150000.
+func c40RegressLead() string {
+	full := [5]bool{true, true, true, true, true}
+	msg, _, _ := checkC40([]aggSeries{
+		{ts: []int64{450000}, cuts: []int{1}, mask: full, lead: -1},
+		{ts: []int64{300000, 900000}, cuts: []int{2}, mask: full, lead: 150000},
+	})
+	return msg
+}
+
 func TestVerifC40(t *testing.T) {
 	rec := kit.For(t, "C40")
 	known := kit.KnownFindings("C40")
+	if msg := c40RegressLead(); msg != "" {
+		if known[sigC40CounterLead] {
+			rec.Known(sigC40CounterLead, "replica A {450000}, replica B {300000, 900000} with the counter chunk starting with the raw value at 150000: "+msg)
+		} else {
+			rec.Violation(t, "regression counter-lead: %s", msg)
+		}
+	}
 	if msg := c40Regress(); msg != "" {
 		if known[sigC40Boundary] {
 			rec.Known(sigC40Boundary, "two overlapping 200-sample aggregate chunk series: "+msg)
@@ -241,7 +285,16 @@ func TestVerifC40(t *testing.T) {
 			series = append(series, genAggSeries(rt, fmt.Sprintf("s%d", i), res, base+off, mask, maxN))
 		}
 		// storage.ChunkSeries merge functions receive series sorted by nothing in particular
+		anyLead := false
+		for _, a := range series {
+			anyLead = anyLead || a.lead >= 0
+		}
+		c40WaiveCounter, c40CounterMiss = anyLead && known[sigC40CounterLead], 0
 		msg, oc, os := checkC40(series)
+		c40WaiveCounter = false
+		if c40CounterMiss > 0 {
+			rec.Excluded(sigC40CounterLead)
+		}
 		var sb strings.Builder
 		for i, a := range series {
 			fmt.Fprintf(&sb, "s%d=%s ", i, a)
@@ -266,6 +319,12 @@ func TestVerifC40(t *testing.T) {
 		}
 		if overlap {
 			cls = append(cls, "overlap")
+		}
+		if anyLead {
+			cls = append(cls, "counter-chunks-with-leading-raw-sample")
+		}
+		if c40CounterMiss > 0 {
+			cls = append(cls, "counter-misaligned-with-count(known)")
 		}
 		rec.Case(fmt.Sprintf("res=%d %s", res, sb.String()), overlap && os > 120 && oc >= 2, cls...)
 	})
